@@ -94,6 +94,7 @@ func VerifH_C15_producer() {
 	go producer()
 	n := 1 + verifrt.Choice("items-1", 2)
 	early := verifrt.Choice("items-before-first-timer", n+1) // how many outlinks arrive before the flush timer fires first
+	verifrt.Tag("[items=" + string(rune('0'+n)) + " before-timer=" + string(rune('0'+early)) + " failing-calls=" + string(rune('0'+nFaults)) + " batch=" + string(rune('0'+batchSize)) + "]")
 	hops := make([]int, n)
 	feed := func(i int) {
 		hops[i] = int(verifrt.IntRange("hops", 0, 2))
